@@ -928,7 +928,7 @@ def view_groups(ecus, vtabs, frames):
     g = [[10] + codes(n[:32]) for n in ecus]
     for name in sorted(vtabs):
         g.append([11] + codes(name))
-        for k, v in vtabs[name].items():
+        for k, v in sorted(vtabs[name].items(), key=lambda kv: int(kv[0])):     # a mapping: the property fixes no order of the rows
             g.append([12, int(k)] + codes(v))
     for name, fid, ext, size, txs, sigs in frames:
         g.append([20, fid, int(ext), size])
@@ -957,7 +957,9 @@ def stmt_groups(stmts):
             g += [[101] + codes(n[:32]) for n in st["names"]]
         elif k == "VAL_TABLE_":
             g.append([110] + codes(st["name"]))
-            g += [[111, key] + codes(lab) for key, lab in st["rows"]]
+            # value descriptions are a key -> text mapping; the order in which a statement lists them is not constrained by the
+            # property (only that the writer reproduces its own bytes), so both sides are compared in key order
+            g += [[111, key] + codes(lab) for key, lab in sorted(st["rows"], key=lambda r: r[0])]
         elif k == "BO_":
             g += [[120, st["cid"], st["size"]], [121] + codes(st["name"][:32]), [122] + codes(st["tx"][:32])]
         elif k == "SG_":
@@ -968,7 +970,7 @@ def stmt_groups(stmts):
             g.append([140, st["cid"]])
             g += [[141] + codes(t[:32]) for t in st["txs"]]
         elif k == "VAL_" and st["cid"] is not None:
-            g += [[150, st["cid"]], [151] + codes(st["sig"][:32])] + [[152, key] + codes(lab) for key, lab in st["rows"]]
+            g += [[150, st["cid"]], [151] + codes(st["sig"][:32])] + [[152, key] + codes(lab) for key, lab in sorted(st["rows"], key=lambda r: r[0])]
         elif k == "SIG_VALTYPE_":
             g += [[160, st["cid"], st["type"]], [161] + codes(st["sig"][:32])]
     return g
